@@ -197,6 +197,10 @@ def location(ctx):
     pre, stored, terms, read = _precalc(P)
     kinds = _classify(P, pre)
     funcs = list(terms) + [pre]
+    try:
+        fam = _families(_term_forms(P)[0])
+    except AnalysisError:
+        fam = {}
     n = 0
     for m in funcs:
         res.saw(m)
@@ -229,12 +233,17 @@ def location(ctx):
             if ok:
                 res.ok(f'{m.name}: {unparse(s)} [{kind if isinstance(kind, str) else "derived"}]')
             else:
-                res.fail(ctx.finding(
+                fd = ctx.finding(
                     'LOCATION', m, s,
                     f'{unparse(s)} addresses a '
                     f'{"per-surface" if kind == "surf" else "per-space" if kind == "space" else "derived"} '
                     f'array at {unparse(s.slice)}; a term for surface k must '
-                    f'read it at {want}'))
+                    f'read it at {want}',
+                    construct=f'{kind if isinstance(kind, str) else "derived"}'
+                              f' array read at {unparse(s.slice)}')
+                fd.function = fam.get(m.name, 'Aberrations[precalculation]'
+                                      if m is pre else m.qual)
+                res.fail(fd)
     res.require(60, 'subscripts')
     return res
 
@@ -295,6 +304,38 @@ def _term_forms(P):
             raise AnalysisError(f'{m.qual} outside fragment: {e}')
         forms[m.name] = e2.returned
     return forms, ev, sym, pre, terms
+
+
+def _families(forms):
+    """term function name -> family label from its (marginal, chief) degree"""
+    def deg_of(atom):
+        for pref, d in (('ya[', (1, 0)), ('ua[', (1, 0)), ('yb[', (0, 1)),
+                        ('ub[', (0, 1))):
+            if atom.startswith(pref):
+                return d
+        return (1, 1) if atom == 'INV' else (0, 0)
+
+    def pd(p):
+        return {(sum(deg_of(x)[0] * e for x, e in m),
+                 sum(deg_of(x)[1] * e for x, e in m)) for m in p.d}
+    names = {(3, 0): 'spherical', (2, 1): 'coma', (0, 3): 'distortion',
+             (1, 0): 'axial colour', (0, 1): 'lateral colour'}
+    out = {}
+    for nm, f in forms.items():
+        lab = None
+        if isinstance(f, Rat):
+            a, b = pd(f.n), pd(f.d)
+            if len(a) == 1 and len(b) == 1:
+                (a1, b1), = a
+                (a2, b2), = b
+                d = (a1 - a2, b1 - b2)
+                if d == (1, 2):
+                    chief = [x for x in f.atoms() if x.startswith(('yb[', 'ub['))]
+                    lab = 'astigmatism' if chief else 'Petzval'
+                else:
+                    lab = names.get(d)
+        out[nm] = f'Aberrations[{lab} term]' if lab else f'Aberrations.{nm}'
+    return out
 
 
 def _roles(ev):
@@ -375,12 +416,31 @@ def formulas_and_degrees(ctx):
             matched.add(hit)
             res1.ok(f'{mname} == classical {hit}')
         else:
-            res1.fail(ctx.finding(
+            import hashlib
+            fams = _families(forms)
+            lab = fams.get(mname, m.qual)
+            key = lab[lab.index('[') + 1:-6] if '[' in lab else None
+            ref = [cf for cn_, cf in classical.items()
+                   if key and cn_.startswith(key)]
+            dig = ''
+            if ref:
+                dev = form.n * ref[0].d - ref[0].n * form.d
+                dig = hashlib.sha1(dev.canon().encode()).hexdigest()[:8]
+                # canonical label for the one-place deviation "height of the
+                # previous surface": classical with y_k -> y_{k-1}
+                ym = R('ya', 'k-1')
+                alt = Rat(ref[0].n.subst(sorted(y.atoms())[0], ym.n),
+                          ref[0].d.subst(sorted(y.atoms())[0], ym.n))
+                if sym.eq(form, alt):
+                    dig = 'marginal height taken at k-1'
+            fd = ctx.finding(
                 'SURFACE-FORMULA', m, m.node,
                 f'{mname}(k) (with the precalculated quantities inlined) is '
                 f'not any of the classical surface-contribution formulas '
                 f'still unmatched: {sorted(set(classical) - matched)}',
-                construct=f'{mname} vs classical formula'))
+                construct=f'deviation from the classical formula [{dig}]')
+            fd.function = lab
+            res1.fail(fd)
     res1.require(7, 'term functions')
 
     def deg_of(atom):
